@@ -1,4 +1,8 @@
-/- Line-protocol driver for the C16 model: one JSON expression per line in; out: `<annot> <final> <eng> <wf>`. -/
+/- Line-protocol driver for the C16 model. Lines in:
+     {"schema": [[name, type], ...]}      -> ok            (sets the flat one-table schema for the following lines)
+     [expression JSON]                    -> <annot> <final> <eng> <wf>
+     {"census": true}                     -> JSON: the depth-1 census (accepted / agreeing / per family) by arity
+     {"dec": [isDiv, p1?, s1?, p2?, s2?]} -> the DECIMAL parameters sqlglot annotates (`none` or `p,s`) -/
 import Lean.Data.Json
 import SqlglotModel.Model.Types
 import SqlglotModel.Generated.C16
@@ -38,8 +42,8 @@ def unOfName (s : String) : Except String UnK :=
   | "lower" => pure .lower | "abs" => pure .abs | "sqrt" => pure .sqrt | "ln" => pure .ln | "exp" => pure .exp
   | "sign" => pure .sign | "year" => pure .year | "month" => pure .month | "day" => pure .day
   | "extractYear" => pure .extractYear | "count" => pure .count | "sum" => pure .sum | "min" => pure .min | "max" => pure .max
-  | "avg" => pure .avg | "sumOver" => pure .sumOver | "maxOver" => pure .maxOver | "countOver" => pure .countOver
-  | "avgOver" => pure .avgOver
+  | "avg" => pure .avg | "ceil" => pure .ceil | "floor" => pure .floor | "round" => pure .round | "over" => pure .over
+  | "filter" => pure .filter
   | s => if s.startsWith "cast_" then do pure (.cast (← tyOfName (s.drop 5).toString)) else throw ("un " ++ s)
 
 def binOfName (s : String) : Except String BinK :=
@@ -47,7 +51,8 @@ def binOfName (s : String) : Except String BinK :=
   | "add" => pure .add | "sub" => pure .sub | "mul" => pure .mul | "div" => pure .div | "intdiv" => pure .intdiv
   | "mod" => pure .mod | "pow" => pure .pow | "eq" => pure .eq | "neq" => pure .neq | "lt" => pure .lt | "le" => pure .le | "gt" => pure .gt
   | "ge" => pure .ge | "and" => pure .and | "or" => pure .or | "dpipe" => pure .dpipe | "like" => pure .like
-  | "coalesce" => pure .coalesce | "nullif" => pure .nullif | "concat" => pure .concat
+  | "coalesce" => pure .coalesce | "nullif" => pure .nullif | "concat" => pure .concat | "greatest" => pure .greatest
+  | "least" => pure .least | "corr" => pure .corr
   | _ => throw ("bin " ++ s)
 
 def ternOfName (s : String) : Except String TernK :=
@@ -55,12 +60,30 @@ def ternOfName (s : String) : Except String TernK :=
   | "caseWhen" => pure .caseWhen | "iff" => pure .iff
   | _ => throw ("tern " ++ s)
 
+def naryOfName (s : String) : Except String NaryK :=
+  match s with
+  | "coalesce" => pure .coalesce | "greatest" => pure .greatest | "least" => pure .least | "caseN" => pure .caseN
+  | _ => throw ("nary " ++ s)
+
+def qualOfName (s : String) : Except String Qual :=
+  match s with
+  | "none" => pure .none | "this" => pure .this | "other" => pure .other
+  | _ => throw ("qual " ++ s)
+
+def mkArgs : List TExpr → TArgs
+  | [] => .nil
+  | e :: rest => .cons e (mkArgs rest)
+
 partial def parseE (j : Json) : Except String TExpr := do
   let a ← j.getArr?
   let tag ← (a[0]?.getD Json.null).getStr?
   let arg (i : Nat) : Json := a[i]?.getD Json.null
   match tag with
-  | "col" => pure (.col (← tyOfName (← (arg 1).getStr?)))
+  | "col" => pure (.col (← qualOfName (← (arg 1).getStr?)) (← (arg 2).getStr?))
+  | "nary" => do
+    let k ← naryOfName (← (arg 1).getStr?)
+    let xs ← (a.toList.drop 2).mapM parseE
+    pure (.nary k (mkArgs xs))
   | "int" => pure .intLit
   | "dec" => pure .decLit
   | "str" => pure (.strLit (← isoOfName (← (arg 1).getStr?)))
@@ -72,15 +95,56 @@ partial def parseE (j : Json) : Except String TExpr := do
   | "tern" => pure (.tern (← ternOfName (← (arg 1).getStr?)) (← parseE (arg 2)) (← parseE (arg 3)) (← parseE (arg 4)))
   | t => throw ("tag " ++ t)
 
-def handle (line : String) : String :=
-  match Json.parse line >>= parseE with
-  | .ok e => tyName (annot T0 e) ++ " " ++ tyName (annotFinal T0 e) ++ " " ++ etyName (eng T0 e) ++ " " ++ toString (WF T0 e)
-  | .error m => "bad-input " ++ m
+def famName : Option Family → String
+  | none => "agree"
+  | some f => (toString (repr f)).replace "SqlglotModel.Types.Family." ""
 
-partial def loop (h : IO.FS.Stream) : IO Unit := do
+def tally (l : List (Option Family)) : Json :=
+  let keys := (none :: Family.all.map some)
+  Json.mkObj ([("accepted", Json.num l.length)] ++ keys.filterMap fun k =>
+    let n := (l.filter (· == k)).length
+    if n == 0 then none else some (famName k, Json.num n))
+
+def census : String :=
+  (Json.mkObj [("un", tally (censusUn T0)), ("bin", tally (censusBin T0)), ("tern", tally (censusTern T0))]).compress
+
+def optDec (p s : Json) : Option Dec :=
+  match p.getNat?, s.getNat? with
+  | .ok p, .ok s => some ⟨p, s⟩
+  | _, _ => none
+
+def handleObj (S : Schema) (j : Json) : Except String (Schema × String) := do
+  if let .ok sch := j.getObjVal? "schema" then
+    let cols ← (← sch.getArr?).toList.mapM fun c => do
+      let a ← c.getArr?
+      pure ((← (a[0]?.getD Json.null).getStr?), (← tyOfName (← (a[1]?.getD Json.null).getStr?)))
+    return (cols, "ok")
+  if let .ok _ := j.getObjVal? "census" then
+    return (S, census)
+  if let .ok d := j.getObjVal? "dec" then
+    let a ← d.getArr?
+    let g (i : Nat) : Json := a[i]?.getD Json.null
+    let r := sgDecArith ((g 0).getBool?.toOption.getD false) (optDec (g 1) (g 2)) (optDec (g 3) (g 4))
+    return (S, match r with | none => "none" | some d => s!"{d.p},{d.s}")
+  throw "unknown command"
+
+def handle (S : Schema) (line : String) : Schema × String :=
+  match Json.parse line with
+  | .error m => (S, "bad-input " ++ m)
+  | .ok j =>
+    match j with
+    | .obj _ => (match handleObj S j with | .ok r => r | .error m => (S, "bad-input " ++ m))
+    | _ =>
+      match parseE j with
+      | .ok e => (S, tyName (annot T0 S e) ++ " " ++ tyName (annotFinal T0 S e) ++ " " ++ etyName (eng T0 S e) ++ " "
+                      ++ toString (WF T0 S e))
+      | .error m => (S, "bad-input " ++ m)
+
+partial def loop (h : IO.FS.Stream) (S : Schema) : IO Unit := do
   let line ← h.getLine
   if line.isEmpty then return ()
-  IO.println (handle line.trimAscii.toString)
-  loop h
+  let (S', out) := handle S line.trimAscii.toString
+  IO.println out
+  loop h S'
 
-def main : IO Unit := do loop (← IO.getStdin)
+def main : IO Unit := do loop (← IO.getStdin) []
